@@ -62,6 +62,9 @@ pub struct JitWorld {
   pub host_garbage: Option<u64>,
   /// value of `Registers.cycles` on entry to either engine (5 after an interrupt dispatch)
   pub entry_cycles: u32,
+  /// an OAM DMA (from the base page) is armed through the bus before either engine runs the
+  /// block; neither engine clocks the devices inside a block, so the block's effect is the same
+  pub dma_armed: bool,
   pub garbage_calls: u64,
   pub plain_calls: u64,
 }
@@ -94,6 +97,7 @@ impl JitWorld {
       base_bank: None,
       host_garbage: Some(1),
       entry_cycles: 0,
+      dma_armed: false,
       garbage_calls: 0,
       plain_calls: 0,
     }
@@ -135,6 +139,7 @@ impl JitWorld {
       base_bank: Some(bank),
       host_garbage: Some(1),
       entry_cycles: 0,
+      dma_armed: false,
       garbage_calls: 0,
       plain_calls: 0,
     }
@@ -206,6 +211,11 @@ impl JitWorld {
     r.sp = c.sp as u32;
     r.ip = c.pc as u32;
     r.cycles = self.entry_cycles;
+    if self.dma_armed {
+      crate::mem::memory_write_byte(&mut self.core.memory as *mut MemoryAreas, 0xFF46, crate::cpustep::BASE_DMA_PAGE);
+    } else {
+      self.core.memory.oam_dma = None;
+    }
   }
 
   fn io_digest(&self) -> u64 {
